@@ -43,9 +43,8 @@ func (e *E3) g8(r *Result, prefix string, f *Flow) {
 					okv = st.Has(Atom("v:le-val:"+canon(bo.Y)+":"+canon(bo.X))) || st.Has(Atom("v:lt-val:"+canon(bo.Y)+":"+canon(bo.X)))
 					detail = fmt.Sprintf("needs %s <= %s established", canon(bo.Y), canon(bo.X))
 				}
-				_ = m
-				if reason, listed := reviewedUnderflow[p.FuncName(fn)]; !okv && listed {
-					okv, detail = true, "reviewed: "+reason
+				if !okv && budgetMinusChunkSize(m, bo) {
+					okv, detail = true, "budget -= chunk.Size(): the chunk was returned by ReadChunk(budget), whose encoded size does not exceed the budget it was given (the size accounting itself is decided by C15.readchunk-overhead / C15.size-boundaries)"
 				}
 				r.table(p, rule, construct, p.instrPos(in), okv, detail)
 			}
@@ -53,6 +52,18 @@ func (e *E3) g8(r *Result, prefix string, f *Flow) {
 	}
 }
 
-var reviewedUnderflow = map[string]string{
-	"fdo.exchangeServiceInfoRound": "budget -= chunk.Size(): ReadChunk(budget) returns a chunk whose encoded size does not exceed the budget it was given (the size accounting itself is decided by C15.readchunk-overhead / C15.size-boundaries)",
+// budgetMinusChunkSize: X - Y where Y is KV.Size() of the chunk that
+// ChunkReader.ReadChunk returned when it was given X as its size.
+func budgetMinusChunkSize(m *Matcher, bo *ssa.BinOp) bool {
+	n, _, sz := m.ResultOf(bo.Y)
+	if sz == nil || n != "fdo/serviceinfo.KV.Size" {
+		return false
+	}
+	recv := allArgs(sz)[0]
+	rn, idx, src := m.ResultOf(recv)
+	if src == nil || idx != 0 || rn != "fdo/serviceinfo.ChunkReader.ReadChunk" {
+		return false
+	}
+	given := allArgs(src)[1]
+	return canon(given) == canon(bo.X) || given == bo.X
 }
